@@ -142,13 +142,16 @@ def declarative_case(rng):
     else:
         width = 1
     els.append(passive('down', L))
-    els.append({'type': 'line', 'direction': 'left', 'length': width})
+    # the return wire in one piece or in k equal segments whose length is not a multiple of 0.01 drawing units (1/3, 1/7, ...)
+    k = rng.choice([1, 1, 3, 7, 6])
+    for _ in range(k):
+        els.append({'type': 'line', 'direction': 'left', 'length': width / k})
     if rng.random() < 0.6:
         # a shunt branch from the end of the first passive element down to the bottom rail
         first = els[1]['name']
         els.append(passive('down', L, place_after=first))
     els.append({'type': 'ground', 'place_after': None} if False else {'type': 'ground'})
-    return {'unit': rng.choice([2, 3]), 'elements': els}
+    return {'unit': rng.choice([2, 3, 2.5, 7]), 'elements': els}
 
 
 def programmatic(desc):
